@@ -128,6 +128,13 @@ type execSpec struct {
 	factory  func() any     // history steps only: a front-end request whose body cannot be decoded
 }
 
+type heldResult struct {
+	obs   *Observed
+	node  *Node
+	canon string
+	step  int
+}
+
 // sharedCtxOpt is one option value reused by calls of every case (options are values a program may keep).
 var sharedCtxOpt = z.WithCtxValue("k8", "shared")
 
@@ -295,6 +302,30 @@ func NewHistoryCase(g *Gen, id int) (*Case, []string, string) {
 	internals.ClearPools()
 	k := 1 + g.R.Intn(5)
 	var hist []string
+	var held []heldResult // results of earlier calls the caller keeps: no later call may show in them
+	if g.R.Fork(0x3b3b).P(30) {
+		// a call that reports many issues as a list (the list outgrows any small initial capacity), kept by its
+		// caller, followed by another failing call that returns a list
+		g2 := &Gen{R: g.R.Fork(0x3b3c), P: g.P}
+		for step, n2 := range []*Node{
+			{Kind: KString, Tests: []TestSpec{{Builtin: "min", N: 10}, {Builtin: "contains", S: "zq"}, {Builtin: "prefix", S: "zq"}, {Builtin: "suffix", S: "zq"}}},
+			{Kind: KInt, Tests: []TestSpec{{Builtin: "gt", N: 100}}},
+		} {
+			h := g2.execSpecFor(n2)
+			h.validate = false
+			h.schema = Build(h.rec, n2, false)
+			in := strV("a")
+			if n2.Kind == KInt {
+				in = intV(1)
+			}
+			h.in = &in
+			h.dest0 = reflect.Zero(h.t)
+			o := h.run()
+			hist = append(hist, fmt.Sprintf("Parse(%s) with %d issue(s) kept", Shape(n2), len(o.RawList)))
+			oc := o
+			held = append(held, heldResult{obs: &oc, node: n2, canon: fullCanon(&oc, n2), step: -2 + step})
+		}
+	}
 	for i := 0; i < k; i++ {
 		h := g.execSpec()
 		if g.R.P(15) {
@@ -345,6 +376,10 @@ func NewHistoryCase(g *Gen, id int) (*Case, []string, string) {
 			}
 		}
 		hist = append(hist, fmt.Sprintf("%s(%s, %d opts, nil=%v) %s", map[bool]string{true: "Validate", false: "Parse"}[h.validate], Shape(h.node), len(h.opts), o.Nil, how))
+		if how == "kept" && !o.Nil {
+			oc := o
+			held = append(held, heldResult{obs: &oc, node: h.node, canon: fullCanon(&oc, h.node), step: i})
+		}
 	}
 	after := probe.run()
 	if c := fullCanon(&after, n); c != refCanon {
@@ -377,6 +412,19 @@ func NewHistoryCase(g *Gen, id int) (*Case, []string, string) {
 					check(i)
 				}
 			}
+		}
+	}
+	if id%5 >= 2 {
+		// the caller still holds the first result (it was not handed back): nothing a later call does may show in it
+		if c := fullCanon(&ref, n); c != refCanon {
+			tags = append(tags, "held_result")
+			notes = append(notes, "history: "+strings.Join(hist, " ; ")+"\nthe result of the first call, as returned:\n"+refCanon+"\nthe same result object after the later calls:\n"+c)
+		}
+	}
+	for _, h := range held {
+		if c := fullCanon(h.obs, h.node); c != h.canon && len(notes) < 4 {
+			tags = append(tags, "held_result")
+			notes = append(notes, fmt.Sprintf("history: %s\nthe result of step %d, as returned:\n%s\nthe same result object after the later calls:\n%s", strings.Join(hist, " ; "), h.step, h.canon, c))
 		}
 	}
 	if a := aliased(&after); a != "" {
